@@ -116,6 +116,9 @@ def check_property(pid, tier, ok_coq, coq_log):
     bad = scan_forbidden()
     if bad:
         out['broken'].append('forbidden vernacular: ' + '; '.join(bad[:5]))
+    un = unlisted_files()
+    if un:
+        out['broken'].append('not listed in _CoqProject (never built by make, never scanned): ' + ', '.join(un[:6]))
     tabf = os.path.join(COQ, 'Oblig', 'Tables_%s.v' % pid)
     propf = os.path.join(COQ, 'Properties', '%s.v' % pid)
     if os.path.exists(tabf):
@@ -182,3 +185,14 @@ def coqchk_once():
     res = ('OK' if r.returncode == 0 else 'FAIL') + ' coqchk %.0fs\n' % (time.time() - t0) + txt[-4000:]
     open(cache, 'w').write(res)
     return r.returncode == 0, res
+
+
+def unlisted_files():
+    """every .v under Model/Spec/Proofs/Oblig/Properties must be listed in _CoqProject (make and the scan only see those)"""
+    listed = set(l.strip() for l in open(os.path.join(COQ, '_CoqProject')) if l.strip().endswith('.v'))
+    out = []
+    for d in ('Model', 'Spec', 'Proofs', 'Oblig', 'Properties'):
+        for f in sorted(os.listdir(os.path.join(COQ, d))):
+            if f.endswith('.v') and '%s/%s' % (d, f) not in listed:
+                out.append('%s/%s' % (d, f))
+    return out
